@@ -248,7 +248,7 @@ def execute(cfg: kaisa.Config, hist: list[dict[str, Any]], seed: int,
             with ll:
                 if act == 'train':
                     rr.model.train(True)
-                    rr.model.zero_grad(set_to_none=True)
+                    rr.model.zero_grad(set_to_none=not cfg.keep_grads)
                     for mb in range(arg):
                         cap.pid += 1
                         xb, yb = kaisa.make_batch(cfg, seed, rank, rr.it, mb,
@@ -277,14 +277,14 @@ def execute(cfg: kaisa.Config, hist: list[dict[str, Any]], seed: int,
                     rr.it += 1
                 elif act == 'fwdonly':
                     rr.model.train(True)
-                    rr.model.zero_grad(set_to_none=True)
+                    rr.model.zero_grad(set_to_none=not cfg.keep_grads)
                     cap.pid += 1
                     xb, yb = kaisa.make_batch(cfg, seed, rank, rr.it, 0, dtype)
                     rr.model(xb)
                     rr.it += 1
                 elif act == 'eval':
                     rr.model.train(False)
-                    rr.model.zero_grad(set_to_none=True)
+                    rr.model.zero_grad(set_to_none=not cfg.keep_grads)
                     cap.pid += 1
                     xb, yb = kaisa.make_batch(cfg, seed, rank, rr.it, 0, dtype)
                     before = state_digest(rr)
